@@ -32,6 +32,14 @@ def run(tier):
         suite.proportional('gate2zx[%s].denotes' % name, mat_list(zx_matrix(d)), mat_list(M), angle=phi,
                            what='the ZX diagram of %s denotes its matrix up to a non-zero scalar, for every phase' % name,
                            functions=fz)
+        # ... and the circuit's OWN pure evaluation (the statement compares the diagram with what discopy evaluates the
+        # circuit to, not only with the textbook matrix)
+        import numpy as _np
+        ev = g.eval()
+        own = sympy.Matrix(_np.array(ev.array, dtype=object).reshape(2 ** len(g.dom), 2 ** len(g.cod)).tolist()).T
+        suite.proportional('gate2zx[%s].denotes.own_evaluation' % name, mat_list(zx_matrix(d)), mat_list(own), angle=phi,
+                           what='the ZX diagram of %s denotes the pure evaluation of the gate up to a non-zero scalar, for every phase' % name,
+                           functions=fz + ['quantum.circuit.Circuit.eval'])
     for n in range(1, 4):
         for bits in itertools.product((0, 1), repeat=n):
             for cls, M in ((Ket, S.ket(*bits)), (Bra, S.ket(*bits).T)):
